@@ -556,6 +556,25 @@ func genC18(g *Gen) {
 				g.Run("names that only one case mapping identifies", []Ev{{"op": "names", "nodes": nodesAny(a), "root": root, "mode": 0, "pseed": int(r.Int31())}})
 			}
 		}
+		// quoted identifiers made of other identifiers of the expression joined by a separator: a name of its own
+		for _, sep := range []string{",", " ", ";", "|", "\n", ", ", "+"} {
+			for variant := 0; variant < 3; variant++ {
+				a := &xast{}
+				names := []string{"low", "high", "low" + sep + "high"}
+				if variant == 1 {
+					names = []string{"high", "low", "mid", "low" + sep + "mid"} // (not adjacent in the order of discovery)
+				}
+				if variant == 2 {
+					names = []string{"low" + sep + "high", "low", "high", "high" + sep + "low"}
+				}
+				root := a.add(xnode{K: "var", Text: names[0], Key: strings.ToUpper(names[0])})
+				for _, nm := range names[1:] {
+					v := a.add(xnode{K: "var", Text: nm, Key: strings.ToUpper(nm)})
+					root = a.add(xnode{K: "bin", Op: "Plus", Kids: []int{root, v}})
+				}
+				g.Run("identifiers made of other identifiers joined by a separator", []Ev{{"op": "names", "nodes": nodesAny(a), "root": root, "mode": 0, "pseed": int(r.Int31())}})
+			}
+		}
 		// identifiers that look like something else: function names, keywords inside quotes, quoted identifiers
 		special := []string{"f(x) + F(y) + f", "'a' + a + \"a\"", "\"quoted id\" + 1", "NOT NOTx AND nota", "Min(Max(a, b), A)", "x IS NULL OR X IS NOT NULL",
 			"a[b] + A[B]", "'x' IN xs", "TRUE AND true_ OR False_", "sum(1,2) + Sum", "a.b", "_a + _A + __"}
